@@ -8,6 +8,8 @@ import Driver.History
 import Driver.Diff
 import Driver.Bind
 import Driver.Distances
+import Driver.Shmem
+import Driver.Helpers
 open Driver
 
 def main (args : List String) : IO UInt32 := do
@@ -43,6 +45,12 @@ def main (args : List String) : IO UInt32 := do
     return 0
   | ["distances"] =>
     lineLoop stdin stdout DistancesEng.init DistancesEng.step
+    return 0
+  | ["shmem"] =>
+    lineLoop stdin stdout ShmemEng.init ShmemEng.step
+    return 0
+  | ["helpers"] =>
+    lineLoop stdin stdout HelpersEng.init HelpersEng.step
     return 0
   | _ =>
     IO.eprintln "usage: hwmodel <engine>"
